@@ -141,6 +141,15 @@ CHECKS = {
          "'10 dB above the noise floor' read as: every noise sample <= amp/3.162; uniform integer noise (x1000), not Gaussian/Rayleigh; "
          "buffers contain a fully quiet 100-us window; no SDR hardware (object.__new__(RtlReader)).",
          "DESIGN.md section 5 C19"),
+ "C20": ("relational monitoring: the spec states the relations of the property as TLA+ predicates over integer-projected observations "
+         "(ISA within 0.1 % of an mpmath-generated ISO 2533 table, continuity at 11 km, conversion pairs mutually inverse, strict "
+         "monotonicity, TAS/CAS >= EAS, equality at sea level, symmetric distance agreeing with an integer haversine form, bearing "
+         "range, scalar = array); pyModeS.aero is evaluated on the grid and TLC judges every observation",
+         "42 altitudes x 17 speeds / 13 Mach numbers x 8 conversions (quick: every 4th altitude), scalar and numpy calls, 1500+ whole-degree "
+         "coordinate pairs incl. poles, antimeridian, identical and antipodal points.",
+         "The technique contributes least here: oracles are tables / an integer formula with stated tolerances (0.1 %, 1e-6, 3e-4); numeric "
+         "drift below them is invisible; TAS/CAS >= EAS is checked at and above sea level only ('at altitude').",
+         "DESIGN.md section 5 C20"),
 }
 
 PENDING = {}
